@@ -158,6 +158,18 @@ fn files(tier: Tier) -> Vec<(String, Vec<u8>)> {
             out.push((format!("long-last-line-cut:{}:{}", what, n), b[..b.len() - 3].to_vec()));
         }
     }
+    // long outputs of multi-byte characters, shifted by 0..3 bytes, so that characters straddle every 1 KiB / 4 KiB /
+    // 64 KiB mark of the output at every phase
+    for (cn, ch, count) in [("2byte", "é", 40_000usize), ("3byte", "€", 30_000), ("4byte", "😀", 20_000)] {
+        for pad in 0..4usize {
+            let text: String = "a".repeat(pad) + &ch.repeat(count);
+            let mut w = model::header(0x0001_0300, 0, 50);
+            for k in 0..3u32 {
+                w.extend(enc(&Inst::new("String", None, Some(1 + k), vec![Arg::Str(text.clone())])));
+            }
+            out.push((format!("wide-output:{}:pad{}", cn, pad), model::words_to_bytes(&w)));
+        }
+    }
     for n in [100usize, 3000, 20000] {
         let mut w = model::header(0x0001_0300, 0, 50);
         for i in valid_function(n) {
